@@ -85,6 +85,11 @@ def minWith (a b : Rat) : Rat := if b < a then b else a
 def maxWithNat (a b : Nat) : Nat := if b > a then b else a
 def minWithNat (a b : Nat) : Nat := if b < a then b else a
 
+/-- `PercentileOfMethod` (tea-agg/src/lib.rs) -/
+inductive PctMethod where
+  | rank | weak | strict
+deriving DecidableEq, Repr
+
 /-- `Number::abs` on an exact value -/
 def ratAbs (q : Rat) : Rat := if q < 0 then -q else q
 
